@@ -238,8 +238,13 @@ class Concatenator(Group):  # pylint: disable=too-many-public-methods
             return new_entity
 
         if (
-            mask is None and new_entity.workspace != self.workspace
-        ):  # Fast copy to new workspace
+            mask is None
+            and new_entity.workspace != self.workspace
+            and not any(
+                new_entity.workspace.find_entity(str2uuid(uid)) is not None
+                for uid in (self.concatenated_object_ids or [])
+            )
+        ):  # Fast copy to new workspace, where the identifiers are free
             new_entity.concatenated_attributes = deepcopy(self.concatenated_attributes)
             new_entity.concatenated_object_ids = deepcopy(
                 self.concatenated_object_ids
